@@ -232,6 +232,12 @@ pub fn array_push(
     };
 
     let mut arr_ref = arr.borrow_mut();
+    if arr_ref.array_rejects(false, !args.is_empty(), false) || (args.is_empty() && arr_ref.frozen)
+    {
+        return Err(JsError::type_error(
+            "Cannot add property, object is not extensible",
+        ));
+    }
 
     let elements = arr_ref
         .array_elements_mut()
@@ -257,6 +263,11 @@ pub fn array_pop(
     };
 
     let mut arr_ref = arr.borrow_mut();
+    if arr_ref.array_rejects(false, false, true) {
+        return Err(JsError::type_error(
+            "Cannot delete property of a sealed array",
+        ));
+    }
 
     let elements = arr_ref
         .array_elements_mut()
@@ -980,12 +991,32 @@ pub fn array_shift(
     };
 
     let mut arr_ref = arr.borrow_mut();
+    let (frozen, sealed) = (arr_ref.frozen, arr_ref.sealed);
     let elements = arr_ref
         .array_elements_mut()
         .ok_or_else(|| JsError::type_error("Array.prototype.shift called on non-array"))?;
 
+    if frozen {
+        return Err(JsError::type_error(
+            "Cannot assign to read only property of a frozen array",
+        ));
+    }
     if elements.is_empty() {
         return Ok(Guarded::unguarded(JsValue::Undefined));
+    }
+    if sealed {
+        // The elements move down one by one; deleting the last one is what fails
+        elements.rotate_left(1);
+        if let (Some(moved_last), true) = (
+            elements.len().checked_sub(2).and_then(|i| elements.get(i).cloned()),
+            elements.len() >= 2,
+        ) && let Some(last) = elements.last_mut()
+        {
+            *last = moved_last;
+        }
+        return Err(JsError::type_error(
+            "Cannot delete property of a sealed array",
+        ));
     }
 
     let first = elements.remove(0);
@@ -1004,6 +1035,11 @@ pub fn array_unshift(
     };
 
     let mut arr_ref = arr.borrow_mut();
+    if arr_ref.array_rejects(false, !args.is_empty(), false) || arr_ref.frozen {
+        return Err(JsError::type_error(
+            "Cannot add property, object is not extensible",
+        ));
+    }
     let elements = arr_ref
         .array_elements_mut()
         .ok_or_else(|| JsError::type_error("Array.prototype.unshift called on non-array"))?;
@@ -1013,9 +1049,7 @@ pub fn array_unshift(
     }
 
     // Insert args at the beginning
-    for (i, val) in args.iter().enumerate() {
-        elements.insert(i, val.clone());
-    }
+    elements.splice(0..0, args.iter().cloned());
 
     Ok(Guarded::unguarded(JsValue::Number(elements.len() as f64)))
 }
@@ -1032,9 +1066,15 @@ pub fn array_reverse(
     };
 
     let mut arr_ref = arr.borrow_mut();
+    let frozen = arr_ref.frozen;
     let elements = arr_ref
         .array_elements_mut()
         .ok_or_else(|| JsError::type_error("Array.prototype.reverse called on non-array"))?;
+    if frozen && elements.len() >= 2 {
+        return Err(JsError::type_error(
+            "Cannot assign to read only property of a frozen array",
+        ));
+    }
 
     elements.reverse();
 
@@ -1143,6 +1183,11 @@ pub fn array_sort(
 
     {
         let mut arr_ref = arr.borrow_mut();
+        if arr_ref.frozen && !elements.is_empty() {
+            return Err(JsError::type_error(
+                "Cannot assign to read only property of a frozen array",
+            ));
+        }
         for (i, val) in elements.into_iter().enumerate() {
             arr_ref.set_property(PropertyKey::Index(i as u32), val);
         }
@@ -1168,6 +1213,7 @@ pub fn array_fill(
     let value = args.first().cloned().unwrap_or(JsValue::Undefined);
 
     let mut arr_ref = arr.borrow_mut();
+    let frozen = arr_ref.frozen;
     let elements = arr_ref
         .array_elements_mut()
         .ok_or_else(|| JsError::type_error("Array.prototype.fill called on non-array"))?;
@@ -1198,6 +1244,11 @@ pub fn array_fill(
         })
         .unwrap_or(length) as usize;
 
+    if frozen && start < end {
+        return Err(JsError::type_error(
+            "Cannot assign to read only property of a frozen array",
+        ));
+    }
     for i in start..end {
         if let Some(slot) = elements.get_mut(i) {
             *slot = value.clone();
@@ -1221,6 +1272,7 @@ pub fn array_copy_within(
     };
 
     let mut arr_ref = arr.borrow_mut();
+    let frozen = arr_ref.frozen;
     let elements = arr_ref
         .array_elements_mut()
         .ok_or_else(|| JsError::type_error("Array.prototype.copyWithin called on non-array"))?;
@@ -1265,6 +1317,11 @@ pub fn array_copy_within(
 
     // Copy elements to temporary Vec first to avoid borrow issues
     let copied: Vec<JsValue> = elements.get(start..end).unwrap_or_default().to_vec();
+    if frozen && !copied.is_empty() && target < elements.len() {
+        return Err(JsError::type_error(
+            "Cannot assign to read only property of a frozen array",
+        ));
+    }
 
     for (i, val) in copied.into_iter().enumerate() {
         let target_idx = target + i;
@@ -1290,6 +1347,7 @@ pub fn array_splice(
     };
 
     let mut arr_ref = arr.borrow_mut();
+    let (frozen, sealed, extensible) = (arr_ref.frozen, arr_ref.sealed, arr_ref.extensible);
     let elements = arr_ref
         .array_elements_mut()
         .ok_or_else(|| JsError::type_error("Array.prototype.splice called on non-array"))?;
@@ -1315,14 +1373,37 @@ pub fn array_splice(
         })
         .unwrap_or((length - start as i64) as usize);
 
-    // Remove elements and collect them
-    let removed: Vec<JsValue> = elements.drain(start..start + delete_count).collect();
-
-    // Insert new items
     let insert_items: Vec<JsValue> = args.iter().skip(2).cloned().collect();
-    for (i, val) in insert_items.into_iter().enumerate() {
-        elements.insert(start + i, val);
+    if frozen {
+        return Err(JsError::type_error(
+            "Cannot assign to read only property of a frozen array",
+        ));
     }
+    if insert_items.len() > delete_count && (sealed || !extensible) {
+        // The tail moves up first, into an index the array does not have
+        return Err(JsError::type_error(
+            "Cannot add property, object is not extensible",
+        ));
+    }
+    if insert_items.len() < delete_count && sealed {
+        // The tail moves down element by element; deleting what is left over is what fails
+        let shift = delete_count - insert_items.len();
+        for to in start + insert_items.len()..elements.len() - shift {
+            if let Some(value) = elements.get(to + shift).cloned()
+                && let Some(slot) = elements.get_mut(to)
+            {
+                *slot = value;
+            }
+        }
+        return Err(JsError::type_error(
+            "Cannot delete property of a sealed array",
+        ));
+    }
+
+    // Remove elements and collect them, inserting the new items in their place
+    let removed: Vec<JsValue> = elements
+        .splice(start..start + delete_count, insert_items)
+        .collect();
 
     drop(arr_ref);
     let guard = interp.heap.create_guard();
